@@ -55,6 +55,8 @@ def nest(rng, items, depth):
 def compare(ctx, ref, got, what, form_desc, joined=False, mech='spelling'):
     ctx.ev('spelling')
     ctx.nontriv((what, form_desc))
+    if len(ctx.samples) < 10 and not isinstance(got, Exception) and form_desc not in ('name-lower', 'name-upper'):
+        ctx.sample({'reference': what, 'form': form_desc, 'reported': got[0], 'str': got[1]})
     if isinstance(got, Exception):
         ctx.violation('spelling-rejected', {'reference': what, 'form': form_desc, 'error': repr(got)},
                       mech=mech + '-rejected')
@@ -271,6 +273,16 @@ def check_negative(ctx, L, rng):
     ctx.ev('rejection')
     if not isinstance(got, ValueError):
         ctx.violation('self-containing-list-not-rejected', {'outcome': repr(got), 'depth': 2}, mech='not-rejected:selflist')
+    # empty containers contribute nothing and may occur repeatedly (the empty tuple is one shared object)
+    e = []
+    p2 = [[], 'bold']
+    for form, exp in ((['bold', (), 'red', ()], ['1', '31']), ([e, 'bold', e], ['1']), ([p2, 'red', p2], ['1', '31', '1']),
+                      (((), ((),), 'italic'), ['3'])):
+        got = probe(L, form)
+        ctx.ev('spelling')
+        if isinstance(got, Exception) or got[0] != exp:
+            ctx.violation('empty-container-not-ignored', {'form': repr(form), 'expected': exp, 'outcome': repr(got)[:200]},
+                          mech='empty-containers')
     # the same (non-recursive) contents twice is fine
     sub = ['bold']
     got = probe(L, [sub, sub])
